@@ -48,7 +48,8 @@ def doW : P String := do
   let M ← popNat; let n ← popNat
   let Kzz ← popMat M M; let Kzx ← popMat M n; let Kxx ← popMat n n; let mX ← popMat n 1
   let ε ← popRat; let εx ← popRat
-  let L ← popMat M M; let mw ← popMat M 1; let Sw ← popMat M M; let hasS ← popNat
+  let L ← popMat M M; let mw ← popMat M 1; let Sw ← popMat M M; let flag ← popNat
+  let hasS := flag % 2          -- flag = hasS + 2·trace_mode (the hand-written model has one form for both branches)
   let Kt := addJitter Kzz ε
   match whitenedFwd? L Kzx Kxx mX εx mw (if hasS = 1 then Sw else Sw), inv? Kt with
   | some code, some Ki =>
